@@ -85,6 +85,21 @@ def gen_jobs(rng, quick):
             jobs += [dict(c) for c in again]
             obj += 1
             jobs += [dict(c, obj=obj) for c in again]      # fresh encoder, cold cache
+    # degree sweep on the two large fields (Aztec 10- and 12-bit codewords): every number of check symbols 1..130 (thorough 1..600) with short
+    # data on ONE encoder per field, then neighbouring large degrees back and forth (cache growth, and whatever a cache does beyond 255)
+    for f in FIELDS:
+        size = f[1]
+        if size < 1024:
+            continue
+        obj += 1
+        hist += 1
+        ns = list(range(1, 131 if quick else 601))
+        rng.shuffle(ns)
+        ns += [256, 257, 258, 257, 300, 301, 300, 302, 299, 255, 254, 256] + ([] if quick else [600, 601, 599, 512, 513, 511, 1000, 1001])
+        for n in ns:
+            ln = rng.choice([1, 2, 3])
+            data = [rng.randrange(1, size) for _ in range(ln)]
+            jobs.append(dict(op="rs", obj=obj, field=f, a=data, n=n, hist=hist))
     return jobs
 
 
